@@ -386,24 +386,40 @@ abbrev IsInt32 (x : Int) : Prop := -(2 ^ 31) ≤ x ∧ x < 2 ^ 31
 /-- SPEC: the duration cut down to whole units, toward zero -/
 def truncTo (u : TUnit) (d : Int) : Int := quoT d u.nanos * u.nanos
 
-/-! ### the three write paths of a `time.Duration` struct field, as they are
+/-! ### the three write paths of a `time.Duration` struct field
 
-Only `writeDuration` (reached from `GenericWriter[any]` / `Buffer.Write(any)`: the reflection path) divides
-by the unit. The typed path of `GenericWriter[T]` / `GenericBuffer[T]` treats the field as the `int64` it is
-(`writeRowsFuncOfInt`), and `Schema.Deconstruct` (`Writer.Write`) goes through `makeValue`. -/
+`writeDuration` is reached from `GenericWriter[any]` / `Buffer.Write(any)` (the reflection path); the typed
+path of `GenericWriter[T]` / `GenericBuffer[T]` goes through `writeRowsFuncOfDuration` and `Schema.Deconstruct`
+(`Writer.Write`) through `makeValue`. Before the round-6 repair (library commit 21a275d) the last two did not
+divide by the unit: `durWriteBeforeFix` keeps that code as a regression mirror. -/
 
 inductive DurPath where
   | reflect | typed | deconstruct
 deriving DecidableEq, Repr
 
-/-- MIRROR of the stored leaf per write path; `none` = panic.
+/-- MIRROR of the stored leaf per write path, as repaired; `none` = panic.
     * `reflect`: `writeDuration` (column_buffer_reflect.go:296-311);
+    * `typed`: `writeRowsFuncOfDuration` (column_buffer_write.go:1048-1095): on the INT32 column
+      `int32(d / unit)`, on an INT64 column `d / unit`, for `unit == 1` the plain `writeRowsFuncOfInt` copy;
+    * `deconstruct`: the `time.Duration` case of `makeValue` (value.go:307-320):
+      `int32(d.Milliseconds())`, `d.Microseconds()`, `d.Nanoseconds()`. -/
+def durWrite (p : DurPath) (u : TUnit) (d : Int) : Option Int :=
+  match p, u with
+  | .reflect, _ => some (durToLeaf u d)
+  | .typed, .milli => some (wrap32 (quoT d TUnit.milli.nanos))
+  | .typed, .micro => some (quoT d TUnit.micro.nanos)
+  | .typed, .nano => some d
+  | .deconstruct, .milli => some (wrap32 (quoT d 1000000))
+  | .deconstruct, .micro => some (quoT d 1000)
+  | .deconstruct, .nano => some d
+
+/-- MIRROR of the same paths BEFORE the repair (regression facts only).
     * `typed`: `writeRowsFuncOfInt` (column_buffer_write.go:230-275): an 8-byte Go integer on an INT32
       column is narrowed with `int32(x)`, on an INT64 column copied as it is — the nanosecond count;
-    * `deconstruct`: `makeValue` (value.go:318-332): kind INT32 accepts `reflect.Int8/16/32` only
+    * `deconstruct`: `makeValue` (value.go, kind switch): kind INT32 accepts `reflect.Int8/16/32` only
       ("cannot create parquet value of type INT32 from go value of type time.Duration"), kind INT64
       stores `v.Int()` — the nanosecond count. -/
-def durWrite (p : DurPath) (u : TUnit) (d : Int) : Option Int :=
+def durWriteBeforeFix (p : DurPath) (u : TUnit) (d : Int) : Option Int :=
   match p, u with
   | .reflect, _ => some (durToLeaf u d)
   | .typed, .milli => some (wrap32 d)
